@@ -233,6 +233,43 @@ pub fn explore(world: &World, rep: &Report, prop: &str, max_depth: Option<usize>
     Explored { nodes, transitions, max_depth: depth, fixpoint }
 }
 
+/// Bounded history search without state merging: every sequence of `depth` operations is run on a
+/// fresh decoder and every step compared with the model. Covers state the key cannot see (a field
+/// added to the decoder, a static, a thread-local) for histories up to that length.
+pub fn explore_histories(world: &World, rep: &Report, prop: &str, depth: usize) -> u64 {
+    let n = world.ops.len();
+    let total = n.pow(depth as u32);
+    let bad = std::sync::atomic::AtomicU64::new(0);
+    (0..total).into_par_iter().for_each(|code| {
+        let mut h = Vec::with_capacity(depth);
+        let mut c = code;
+        for _ in 0..depth {
+            h.push(c % n);
+            c /= n;
+        }
+        if let Err((step, f)) = world.run(&h, prop) {
+            // report a failure once, at the shortest history that shows it (its last step)
+            if step + 1 == h.len() || bad.fetch_add(1, std::sync::atomic::Ordering::Relaxed) == 0 {
+                let hh = &h[..=step];
+                rep.violation(&format!("{}[history]", f.sig), format!("history {:?}: {}", world.hist_labels(hh), f.what), world.replay_value(hh, &f.what));
+            }
+        }
+    });
+    (total * depth) as u64
+}
+
+/// Sizes of the hooked objects on the tree the state keys were written for. When they differ the
+/// object has gained (or lost) state; the searches still run, and say so.
+pub const BASELINE_STATE_SIZE: usize = 64;
+pub fn note_object_sizes(rep: &Report) {
+    let now = h263_rs::H263State::verif_object_size();
+    rep.extra("decoder_object_size", json!(now));
+    if BASELINE_STATE_SIZE != 0 && now != BASELINE_STATE_SIZE {
+        println!("NOTE: H263State is {now} bytes, {BASELINE_STATE_SIZE} on the tree the state key was written for: the decoder has state the key may not contain; states that differ only there are merged by the graph searches, the bounded history search (no merging) still covers them up to its depth");
+        rep.extra("decoder_object_size_differs_from_baseline", json!(true));
+    }
+}
+
 pub const DC: [u8; 3] = [40, 120, 200];
 pub const TRS: [u8; 3] = [0, 1, 255];
 
@@ -399,6 +436,22 @@ pub fn run(tier: Tier) -> Report {
         do_world("sorenson-motion-depth6", &motion_world(crate::evidence::seed()), Some(6), true);
     } else {
         do_world("sorenson-motion-depth3", &motion_world(crate::evidence::seed()), Some(3), true);
+    }
+    // bounded history search without state merging (hidden state): every history of 4 (thorough 5)
+    // operations over a reduced closed alphabet, both modes
+    {
+        note_object_sizes(&rep);
+        let depth = if tier.thorough() { 5 } else { 4 };
+        let mut n = 0u64;
+        for sorenson in [true, false] {
+            let w = closed_world(sorenson, &[0, 1], 2);
+            n += explore_histories(&w, &rep, "C04", depth);
+        }
+        let w = closed_world(true, &[7], 2);
+        n += explore_histories(&w, &rep, "C04", depth + 1);
+        rep.add_transitions(n);
+        rep.add_states(n / depth as u64);
+        rep.extra("unmerged_history_steps", json!(n));
     }
     // long single history: temporal references running through the 8-bit wrap several times, with
     // disposable pictures, rejected inputs and clean-ups interleaved; the store must stay bounded
